@@ -620,6 +620,31 @@ Proof.
   intros Hz Hd Ht. unfold meas_addsub_bare. rewrite Hz, Hd. simpl. rewrite uc_eqb_refl, Ht. reflexivity.
 Qed.
 
+(** * Histories on one object: reads are transparent *)
+Lemma mrun_reads_transparent r ops : ∀ m, mrun r m ops = mrun r m (only_ito ops).
+Proof.
+  unfold mrun. induction ops as [|o ops IH]; intros m; [reflexivity|].
+  destruct o as [|d|]; simpl; apply IH.
+Qed.
+Lemma mrun_no_ito r m ops : Forall (λ o, is_ito o = false) ops → mrun r m ops = m.
+Proof.
+  unfold mrun. revert m. induction ops as [|o ops IH]; intros m H; [reflexivity|].
+  inversion H as [|? ? Ho Hr]; subst. destruct o; try discriminate; simpl; apply IH; exact Hr.
+Qed.
+(** after reads and one in-place conversion the accessors report what the out-of-place
+    conversion of the untouched measurement reports *)
+Lemma mrun_read_ito_read r E m pre post dst m' :
+  Forall (λ o, is_ito o = false) pre → Forall (λ o, is_ito o = false) post →
+  meas_to r m dst = Ok m' →
+  observe E (mrun r m (pre ++ OIto dst :: post)) = observe E m'.
+Proof.
+  intros Hpre Hpost Ht. unfold mrun. rewrite fold_left_app. fold (mrun r m pre).
+  rewrite (mrun_no_ito r m pre Hpre). simpl. rewrite Ht. fold (mrun r m' post).
+  rewrite (mrun_no_ito r m' post Hpost). reflexivity.
+Qed.
+Lemma mrun_refused_ito r m dst e : meas_to r m dst = Err e → mrun r m [OIto dst] = m.
+Proof. intros H. unfold mrun. simpl. rewrite H. reflexivity. Qed.
+
 (** * [join_unc]: parentheses are added iff absent *)
 Lemma join_unc_spec sep lpar rpar m u :
   (String.prefix lpar m = false → ends_with rpar m = false →
